@@ -5,11 +5,12 @@
 // original paths to the copies.  /repo itself is never written.
 //
 // Rewrites (type-directed; anything not recognised is left alone and counted):
-//   x.Lock()/x.RLock() on sync.Mutex/RWMutex   -> simrt.Acquire(x.TryLock|x.TryRLock, x.Lock|x.RLock, site)
-//   x.Unlock()/x.RUnlock() (also deferred)      -> simrt.Release(x.Unlock|x.RUnlock, site)
-//   go f(a...)                                  -> args evaluated, then simrt.Go(func(){ f(a...) }, site)
-//   wg.Add/Done/Wait on sync.WaitGroup          -> simrt.WGAdd/WGDone/WGWait(&wg ...)
-//   for k, v := range m  (m: map[string]T)      -> for _, k := range simrt.Keys(m) { v, ok := m[k]; if !ok {continue}; ... }
+//
+//	x.Lock()/x.RLock() on sync.Mutex/RWMutex   -> simrt.Acquire(x.TryLock|x.TryRLock, x.Lock|x.RLock, site)
+//	x.Unlock()/x.RUnlock() (also deferred)      -> simrt.Release(x.Unlock|x.RUnlock, site)
+//	go f(a...)                                  -> args evaluated, then simrt.Go(func(){ f(a...) }, site)
+//	wg.Add/Done/Wait on sync.WaitGroup          -> simrt.WGAdd/WGDone/WGWait(&wg ...)
+//	for k, v := range m  (m: map[string]T)      -> for _, k := range simrt.Keys(m) { v, ok := m[k]; if !ok {continue}; ... }
 package main
 
 import (
@@ -197,10 +198,10 @@ func rewriteSyncCall(p *packages.Package, call *ast.CallExpr, repo string) *ast.
 	switch m {
 	case "Mutex.Lock", "RWMutex.Lock":
 		st.Locks++
-		return simrtCall("Acquire", methodValue(sel.X, "TryLock"), methodValue(sel.X, "Lock"), lit(s))
+		return simrtCall("Acquire", addrOf(p, sel.X), ast.NewIdent("true"), methodValue(sel.X, "TryLock"), methodValue(sel.X, "Lock"), lit(s))
 	case "RWMutex.RLock":
 		st.Locks++
-		return simrtCall("Acquire", methodValue(sel.X, "TryRLock"), methodValue(sel.X, "RLock"), lit(s))
+		return simrtCall("Acquire", addrOf(p, sel.X), ast.NewIdent("false"), methodValue(sel.X, "TryRLock"), methodValue(sel.X, "RLock"), lit(s))
 	case "Mutex.Unlock", "RWMutex.Unlock":
 		st.Unlocks++
 		return simrtCall("Release", methodValue(sel.X, "Unlock"), lit(s))
